@@ -81,14 +81,23 @@ func ruleAllKmers(c *Ctx, rule string) {
 	for _, fn := range srcFuncs(sp) {
 		loops := naturalLoops(fn)
 		for _, l := range loops {
-			// a loop bounded by len(ki.finger) whose counter is converted to a Kmer
+			// a loop bounded by len(ki.finger) or by the largest word kMask, whose counter is (converted to) a Kmer
 			bounded := false
+			short := ""
 			for _, bf := range headFact(l) {
-				for _, side := range []ssa.Value{bf.cond.X, bf.cond.Y} {
+				for i, side := range []ssa.Value{bf.cond.X, bf.cond.Y} {
 					f := linOf(side, nil)
 					for a := range f.coef {
 						if strings.HasPrefix(a, "len(") && strings.HasSuffix(a, ".finger)") {
 							bounded = true
+						}
+						if strings.HasSuffix(a, ".kMask") {
+							bounded = true
+							// counter < kMask stops one word early
+							op := effectiveOp(bf, i == 1)
+							if op == token.LSS && f.k <= 0 {
+								short = "runs while the word is < kMask"
+							}
 						}
 					}
 				}
@@ -121,6 +130,9 @@ func ruleAllKmers(c *Ctx, rule string) {
 					}
 				}
 				walk(phi, 0)
+				if isNamed(phi.Type(), pkg, "Kmer") {
+					asKmer = true
+				}
 				if !asKmer {
 					continue
 				}
@@ -139,8 +151,10 @@ func ruleAllKmers(c *Ctx, rule string) {
 				if phi.Comment == "rangeindex" {
 					first++
 				}
-				if first == 0 {
-					c.ok(rule, key, phi.Pos(), "the enumeration starts at word 0")
+				if first == 0 && short == "" {
+					c.ok(rule, key, phi.Pos(), "the enumeration starts at word 0 and runs to the last word")
+				} else if first == 0 {
+					c.bad(rule, key, phi.Pos(), "an enumeration of the k-mer space "+short+": kMask is itself a word — all 't' — and is never visited, so its positions are missing from the map although KmerPositions reports them")
 				} else {
 					c.bad(rule, key, phi.Pos(), fmt.Sprintf("an enumeration of the k-mer space (counter converted to Kmer, bounded by len(finger)) starts at %d, not 0: word 0 — all 'a' — is never visited, so its positions are missing from the map although KmerPositions reports them", first))
 				}
